@@ -346,11 +346,11 @@ prop("C19",
      axioms="reals",
      level="proof",
      design_ref="DESIGN.md section 5 C19 and section 7",
-     technique="Rocq proofs of the plane intersection (homogeneous cross products, over R) and of the bounded decision + correspondence of the decision on the azimuths IntersectExt reports + per-instance tests of projection round trips and of the crossing lying on both geodesics. PARTIAL: the ellipsoidal numerics (Karney's solver) have no model",
-     text="Proved: the normalised cross product of the two homogeneous lines lies on both lines whenever they are not parallel; Intersect returns the point iff the arriving and leaving azimuths "
-          "agree in sign on both segments (after the repair D17).  Tied to the code by comparing Intersect's error with that decision on the azimuths IntersectExt itself returns.  Not modelled: "
+     technique="Rocq proofs of the plane intersection (homogeneous cross products, over R) and of the bounded decision (heading difference reduced modulo 360, exact rationals; equal azimuths inside, opposite outside) + correspondence of the decision on the azimuths IntersectExt reports + per-instance tests of projection round trips and of the crossing lying on both geodesics. PARTIAL: the ellipsoidal numerics (Karney's solver) have no model",
+     text="Proved: the normalised cross product of the two homogeneous lines lies on both lines whenever they are not parallel; Intersect returns the point iff on both segments the arriving and leaving azimuths "
+          "point the same way - their float64 difference reduced to [-180,180) is below a quarter turn (C19_bounded_decision, after the repairs D17 and D25); azimuths equal to within any eps < 90 degrees modulo whole turns are classified inside and azimuths half a turn apart outside (C19_equal_azimuths_inside, C19_opposite_azimuths_outside), which is what the extended intersection's 1e-6 degree clause delivers; the pre-repair sign rule is refuted on a meridian (C19_sign_rule_refuted).  Tied to the code by comparing Intersect's error with that decision on the azimuths IntersectExt itself returns.  Not modelled: "
           "GenInverse/LineInit/GenPosition; the projection round trips (1e-9 degrees, 1e-6 relative, NaN beyond the horizon) and 'the crossing lies on both geodesics' are implementation-side tests.",
-     rule="300 (centre, point) pairs 8 m-17000 km apart for the projection clauses + up to 300 segment pairs built around a common crossing (lengths 5 m-1500 km, crossing angle 25-155 degrees, azimuths "
-          "kept 10 degrees away from 0/180, crossing at 20-80% of both segments or 20-100% beyond one end); distinct = distinct JSON; all non-trivial",
-     assumptions=["segments straddling the 180th meridian and azimuths within 10 degrees of north/south are not generated (the sign test is only meaningful away from 0/180)"],
+     rule="300 (centre, point) pairs 8 m-17000 km apart for the projection clauses + up to 300 segment pairs built around a common crossing (lengths 5 m-1500 km, crossing angle 25-155 degrees, 12 % with one segment "
+          "exactly along a meridian (azimuths 0/180), crossing at 20-80% of both segments or 20-100% beyond one end); distinct = distinct JSON; all non-trivial",
+     assumptions=["segments straddling the 180th meridian are not generated (outside the property)"],
      note=GEO_NOTE)
